@@ -187,6 +187,13 @@ def check_theorems(prop, theorems):
         shutil.rmtree(d, ignore_errors=True)
     return ok, bad, assum
 
+def coqchk(modules):
+    """Thorough tier: re-check the compiled property files and everything they depend on with the independent checker."""
+    mods = sorted(set("MR." + m for m, _ in modules))
+    rc, out = sh(["coqchk", "-o", "-silent", "-Q", COQ, "MR"] + mods, cwd=COQ, timeout=3000)
+    ok = rc == 0 and "* Axioms: <none>" in out and "type-in-type: <none>" in out and "unsafe (co)fixpoints: <none>" in out and "positivity is assumed: <none>" in out
+    return ok, out[-1200:]
+
 # ---------------------------------------------------------------- verdict bookkeeping
 class Ctx:
     def __init__(self, prop, tier, seed, replay=None):
